@@ -22,7 +22,7 @@ from fractions import Fraction
 
 META = {'explanation': 'Complete enumeration of every table entry (decode: all codes; encode: all 65536 binary16 values x overflow '
                        'modes) against an exact-rational model of each format; mxint and scale are bounded.'}
-EXTRA_TASKS = ['tables_p4binary', 'tables_p3binary', 'tables_e5m2', 'tables_e4m3', 'tables_small', 'others']
+EXTRA_TASKS = ['tables_p4binary', 'tables_p3binary', 'tables_e5m2', 'tables_e4m3', 'tables_small', 'others', 'routes_across_modes']
 
 
 class Fmt:
@@ -422,3 +422,47 @@ def others(tier='quick', seed=0):
     return {'id': 'C11.others', 'obligations': obs, 'bounded': bounded, 'evaluations': evals,
             'functions': ['bitstore_helpers.e8m0mxfp2bitstore', 'bitstore_helpers.bfloat2bitstore', 'bitstore_helpers.mxint2bitstore'],
             'summary': f'{evals} evaluations'}
+
+
+
+def routes_across_modes(tier='quick', seed=0):
+    """every creation route gives the code the *current* mxfp_overflow mode defines, also right after the mode was switched with the
+    same token string already used under the other mode (bounded: the string route runs through a memoising parser)"""
+    import bitstring
+    from bitstring import Bits, BitArray, Dtype, pack
+    fails = []
+    evals = 0
+    saved = bitstring.options.mxfp_overflow
+    vals = ['500', '465.0', '448.1', '-1e9', '57345', '1e10', '6.1', '7.9', '-7.5', '1e-9', 'inf', '-inf', '0.1', '3.4e38']
+    try:
+        for fmt in ('e4m3mxfp', 'e5m2mxfp', 'e3m2mxfp', 'e2m3mxfp', 'e2m1mxfp', 'e8m0mxfp', 'mxint', 'p4binary', 'p3binary', 'bfloat'):
+            for v in vals:
+                for order in (('saturate', 'overflow'), ('overflow', 'saturate'), ('saturate', 'overflow', 'saturate')):
+                    for mode in order:
+                        bitstring.options.mxfp_overflow = mode
+                        evals += 1
+                        try:
+                            ref = Bits(**{fmt: float(v)}).bin
+                        except ValueError:
+                            ref = 'ValueError'
+                        got = {}
+                        for route, make in (('string', lambda: Bits(f'{fmt}={v}').bin), ('BitArray +=', lambda: (BitArray() + f'{fmt}={v}').bin),
+                                            ('pack', lambda: pack(fmt, float(v)).bin), ('Dtype.build', lambda: Dtype(fmt).build(float(v)).bin),
+                                            ('== string', lambda: ref if (ref == 'ValueError' or Bits(bin=ref) == f'{fmt}={v}') else 'differs')):
+                            try:
+                                got[route] = make()
+                            except ValueError:
+                                got[route] = 'ValueError'
+                        bad = {r: g for r, g in got.items() if g != ref}
+                        if bad and len(fails) < 4:
+                            fails.append({'call': f'{fmt}={v} under {mode} after the sequence {order}', 'observed': str(bad)[:120], 'expected': ref,
+                                          'python': 'import bitstring\n'
+                                                    + ''.join(f"bitstring.options.mxfp_overflow = {m!r}; x = bitstring.Bits('{fmt}={v}').bin\n" for m in order[:order.index(mode) + 1] if True)
+                                                    + f"ref = bitstring.Bits({fmt}=float('{v}')).bin\nFAILS = x != ref\nbitstring.options.mxfp_overflow = 'saturate'\n"})
+    finally:
+        bitstring.options.mxfp_overflow = saved
+    return {'id': 'C11.routes', 'obligations': [], 'evaluations': evals,
+            'bounded': [{'id': 'C11/bitstore_helpers.str_to_bitstore/routes-agree-after-mode-switch', 'qualname': 'bitstore_helpers.str_to_bitstore', 'shape': 'formats x values x mode sequences',
+                         'function': 'string / += / pack / Dtype.build / == routes of the 8-bit and micro-scaling formats', 'bound': '10 formats x 14 boundary values x 3 mode sequences',
+                         'evaluations': evals, 'failures': fails[:3]}],
+            'summary': f'{evals} (format, value, mode) points, {len(fails)} failures'}
